@@ -396,5 +396,12 @@ Section Dispatcher.
     | Generic (CKeys _) => exists la lb, a = RArr (Some la) /\ b = RArr (Some lb) /\ la ≡ₚ lb
     | _ => a = b
     end.
+
+  Fixpoint replies_equiv (rs : list (req P)) (a b : list reply) : Prop :=
+    match rs, a, b with
+    | [], [], [] => True
+    | r :: rs', x :: a', y :: b' => reply_equiv r x y /\ replies_equiv rs' a' b'
+    | _, _, _ => False
+    end.
 End Dispatcher.
 
